@@ -45,6 +45,20 @@ func TestC08(t *testing.T) {
 			st.EdgePct = 1
 			var prefix []sm
 			n := r.Intn(Scale(80, 250))
+			// Gradient2 in its warm-up: k equal samples, then a pair whose higher RTT is exactly twice the long-term average that includes it
+			// (the knee of max(1/2, min(1, long/short))) - the boundary value itself must behave like its neighbours
+			g2k, g2b := int64(0), int64(0)
+			if kind == 3 && cfg.Wrapper == 0 && r.Bool(25) {
+				g2k = 2 + int64(r.Intn(7))
+				g2b = (g2k - 1) * (g2k + 1) * 1000 * r.Pick(1, 3, 10)
+				n = 0
+				for i := int64(0); i < g2k && !scout.Dead; i++ {
+					scout.Now += 1000
+					x := sm{scout.Now, g2b, int64(scout.EstFloat()) + 1, false}
+					prefix = append(prefix, x)
+					scout.OnSample(x.start, x.rtt, x.inf, x.drop)
+				}
+			}
 			for i := 0; i < n && !scout.Dead; i++ {
 				a, b, c, d := st.Next()
 				prefix = append(prefix, sm{a, b, c, d})
@@ -132,6 +146,11 @@ func TestC08(t *testing.T) {
 			}
 			inf := r.Pick(0, int64(scout.EstFloat()/2), int64(scout.EstFloat()), int64(scout.EstFloat())+2)
 			drop := r.Bool(20)
+			if g2k > 0 {
+				hi = 2 * g2k * g2b / (g2k - 1)
+				lo = hi - r.Pick(1, hi/30, hi/3)
+				inf, drop = int64(scout.EstFloat())+1, false
+			}
 			if kind == 2 && r.Bool(60) {
 				inf, drop = int64(scout.EstFloat())+1, false
 			}
